@@ -50,7 +50,7 @@ ASSUMPTIONS = ['LAPACK SVD/QR/eig results are only used through checked post-con
 TOL = 1e-9
 INF_KINDS = [('SpinHalf', None), ('SpinHalf', 'parity'), ('Spin1', None), ('Spin1', 'parity'), ('Fermion', None),
              ('Fermion', 'parity'), ('Boson2', None), ('Boson2', 'parity'), ('SHFermion', (None, None))]
-KINDS = ['product', 'full', 'full', 'randB', 'randB', 'bflat', 'singlets', 'covering', 'book', 'book', 'inf', 'segment']
+KINDS = ['product', 'full', 'full', 'randB', 'randB', 'bflat', 'singlets', 'covering', 'covering', 'book', 'book', 'inf', 'segment']
 
 
 def regenerate(ctx):
@@ -226,6 +226,54 @@ def eval_finite(case):
                     g = np.sort(spec[b - 1])[:len(w)]
                     if not mc.close(g, w, 1e-6):
                         oracle.append(('C07.%s.entanglement_spectrum' % kind, 'bond %d err %.3g' % (b, mc.maxerr(g, w))))
+                        break
+        if canonical and not oracle and L >= 2 and np.linalg.norm(ref) > 0:
+            vn = ref / np.linalg.norm(ref)
+            dims_ = list(vn.shape)
+            # local expectation values of a diagonal operator (uses the stored S through get_theta(i, 1))
+            for nme in ('Sz', 'N', 'Ntot'):
+                if all(nme in s_.opnames for s_ in psi.sites):
+                    got_e = psi.expectation_value(nme)
+                    want_e = []
+                    p2_ = np.abs(vn) ** 2
+                    for i_, s_ in enumerate(psi.sites):
+                        dg = np.real(np.diag(s_.get_op(nme).to_ndarray()))
+                        sh = [1] * L
+                        sh[i_] = dims_[i_]
+                        want_e.append(float(np.sum(p2_ * dg.reshape(sh))))
+                    if not mc.close(np.asarray(got_e, dtype=float), np.array(want_e), 1e-8):
+                        oracle.append(('C07.%s.expectation_value' % kind, '<%s_i> from the MPS %s vs dense %s' % (
+                            nme, np.round(got_e, 6).tolist(), np.round(want_e, 6).tolist())))
+                    break
+            # charge-resolved entanglement spectrum: singular values per charge sector of the cut
+            if psi.chinfo.qnumber > 0 and not oracle:
+                qs_ = [s_.leg.to_qflat() for s_ in psi.sites]
+                spec_q = psi.entanglement_spectrum(by_charge=True)
+                for b in range(1, L):
+                    ql = np.zeros((1, psi.chinfo.qnumber), dtype=np.int64)
+                    for i_ in range(b):
+                        ql = (ql[:, None, :] + qs_[i_][None, :, :]).reshape(-1, psi.chinfo.qnumber)
+                    ql = psi.chinfo.make_valid(ql)
+                    m_ = vn.reshape(len(ql), -1)
+                    dense_sec = []
+                    for q in np.unique(ql, axis=0):
+                        sv = np.linalg.svd(m_[np.all(ql == q, axis=1)], compute_uv=False)
+                        sv = sv[sv > 1e-7]
+                        if len(sv):
+                            dense_sec.append(np.sort(sv))
+                    mps_sec = []
+                    for (_, sub) in spec_q[b - 1]:
+                        sv = np.exp(-0.5 * np.asarray(sub))
+                        sv = sv[sv > 1e-7]
+                        if len(sv):
+                            mps_sec.append(np.sort(sv))
+                    key_ = lambda x: (len(x), tuple(np.round(x, 6)))  # noqa: E731
+                    dense_sec, mps_sec = sorted(dense_sec, key=key_), sorted(mps_sec, key=key_)
+                    same = [len(x) for x in dense_sec] == [len(x) for x in mps_sec] and \
+                        all(np.max(np.abs(x - y)) < 1e-7 for x, y in zip(dense_sec, mps_sec))
+                    if not same:
+                        oracle.append(('C07.%s.schmidt-values-per-charge' % kind,
+                                       'bond %d: singular values per charge sector differ from the dense state' % b))
                         break
         # total charge of the physical legs
         chinfo = psi.chinfo
